@@ -13,10 +13,10 @@ import (
 
 var CfgKeys = []string{"goos", "goarch", "pkg", "k9", "é", "a", "b", "cpu", "ключ", "note-x", "a.b", "a/b", "x_y"}
 var cfgVals = []string{"linux", "amd64", "golang.org/x/perf", "v", "12", "Intel(R) Core(TM) i7 @ 2.80GHz", "a b  c", "x ", "é日本", "k: v", "Benchmark", "Unit", "\xff\xfe", "v\t1", "-", "*", "\"q\"", "a\\b"}
-var Units = []string{"ns/op", "MB/s", "B/op", "allocs/op", "sec/op", "B/s", "ns", "MB", "widgets", "x-bytes", "ns/MB", "µs", "%", "ns-MB", "nsec/op", "GC-ns/op", "u"}
+var Units = []string{"ns/op", "MB/s", "B/op", "allocs/op", "sec/op", "B/s", "ns", "MB", "widgets", "x-bytes", "ns/MB", "µs", "%", "ns-MB", "nsec/op", "GC-ns/op", "u", "%cpu", "%d", "àB/op", "MB*MB*MB*ns*ns/op"}
 var nameBases = []string{"X", "Encode", "Decode/size=4k", "Foo/bar", "A/k=v/size=1", "", "é", "X/a=/b", "_", "9", "Sort/n=10/kind=rand"}
 var floats = []string{"1", "0", "2.5", "100", "1e3", "1.5e-7", "12345678", "0.000001", "-3", "+4", "NaN", "Inf", "-Inf", "+Inf",
-	"0x1p-2", ".5", "5.", "9223372036854775808", "9223372036854775809", "92233720368547758089", "18446744073709551616", "922337203685477580", "1e-320", "007", "-0"}
+	"1e25", "5e24", "2.5e30", "4e23", "1e-30", "0x1p-2", ".5", "5.", "9223372036854775808", "9223372036854775809", "92233720368547758089", "18446744073709551616", "922337203685477580", "1e-320", "007", "-0"}
 var seps = []string{" ", " ", " ", "\t", "  ", " \t ", "\u00a0", "\u2003", "\u0085", "\v", "\f"}
 
 func pick(t *rapid.T, xs []string, label string) string { return rapid.SampledFrom(xs).Draw(t, label) }
